@@ -442,6 +442,15 @@ def step (st : St) (toks : List String) : St × String :=
           | some none => (st, "recovered-panic " ++ showPRS st.prs)
           | some (some p') => ({ st with prs := p' }, "ok " ++ showPRS p')
     | _, _ => (st, "bad-op")
+  | "rflood" :: rest =>
+    -- a running pool's consumer is alive: a buffered, guarded send never blocks forever
+    if ¬ st.reactor then (st, "bad-op") else
+    match (kv rest "rounds").bind String.toNat? with
+    | some n =>
+      let c : ReactorMsgs.BChan := { cap := 1000, len := 0, consumer := true }
+      if (ReactorMsgs.chanSends true true (5 * n) c).contains .blockedForever then (st, "WEDGED-running-pool")
+      else (st, "alive")
+    | none => (st, "bad-op")
   | "hflood" :: rest =>
     if ¬ st.reactor then (st, "bad-op") else
     match (kv rest "n").bind String.toNat? with
